@@ -308,6 +308,50 @@ def main(argv):
     if cmd == 'selftest':
         from . import selftest
         return selftest.main(argv[1:])
+    if cmd == 'triage':
+        # ./check triage <prop> [tier] [substring filter on job args]: grouped fresh violations
+        prop = argv[1].upper()
+        tier = argv[2] if len(argv) > 2 else 'quick'
+        filt = argv[3] if len(argv) > 3 else ''
+        mod = importlib.import_module('vt.props.' + prop.lower())
+        from . import findings as FM
+        jobs = [j for j in mod.jobs(tier) if filt in repr(j.get('args'))]
+        for i, j in enumerate(jobs):
+            j.setdefault('mod', mod.__name__)
+            j['id'] = i
+        byf = collections.defaultdict(list)
+        for j in jobs:
+            byf[j.get('flavour', 'plain')].append(j)
+        groups = collections.OrderedDict()
+        nk = 0
+        for fl, js in byf.items():
+            env = build.worker_env(fl)
+            for j, r in pool.run_jobs(js, env, NPROC):
+                if isinstance(r, pool.WorkerDied):
+                    print('DIED', r.kind, r.rc, j.get('args'), r.case, r.stderr[-1500:])
+                    continue
+                if not r.get('ok'):
+                    print('ERROR', j.get('args'), r.get('error'), r.get('trace'))
+                    continue
+                for v in r['result'].get('violations', []):
+                    if FM.match(prop, v.get('sig', {})) is not None:
+                        nk += 1
+                        continue
+                    sig = dict(v.get('sig', {}))
+                    extra = (sig.pop('argcat', ''), sig.pop('fam', ''), sig.pop('kind', ''))
+                    for kk in ('variant', 'proto'):
+                        sig.pop(kk, None)
+                    k = json.dumps(_jsonable(sig), sort_keys=True)
+                    gr = groups.setdefault(k, [0, set(), set(), set(), v])
+                    gr[0] += 1
+                    gr[1].add(extra[0]); gr[2].add(extra[1]); gr[3].add(extra[2])
+        print('%d known-finding cases; %d fresh groups' % (nk, len(groups)))
+        for k, (n, acs, fams, kinds, v) in groups.items():
+            print('%6d %s\n        argcats=%s fams=%s kinds=%s\n        e.g. %s | %s' % (
+                n, k, sorted(acs), ' '.join(sorted(fams)), sorted(kinds),
+                (v.get('detail') or '')[:300],
+                repr(v.get('case', {}).get('history'))[:200]))
+        return 0
     if cmd == 'dev':
         # ./check dev <prop> "<python dict of job args>" [flavour] : run one job, print result
         import ast
@@ -341,14 +385,20 @@ def main(argv):
                     fresh.append(v)
             print('%d known-finding cases, %d fresh' % (nk, len(fresh)))
             vs = fresh
-            seen = set()
+            groups = collections.OrderedDict()
             for v in vs:
-                k = json.dumps(_jsonable(v.get('sig')), sort_keys=True)
-                if k not in seen:
-                    seen.add(k)
-                    print(k, '::', (v.get('detail') or '')[:300], '|', repr(v.get('case'))[:300])
-                if len(seen) > 40:
-                    break
+                sig = dict(v.get('sig', {}))
+                ac = sig.pop('argcat', '')
+                for kk in ('fam', 'kind', 'variant', 'proto'):
+                    sig.pop(kk, None)
+                k = json.dumps(_jsonable(sig), sort_keys=True)
+                gr = groups.setdefault(k, [0, set(), v])
+                gr[0] += 1
+                gr[1].add(ac)
+            for k, (n, acs, v) in list(groups.items())[:60]:
+                print('%5d %s argcats=%s\n        e.g. %s | %s' % (
+                    n, k, sorted(acs), (v.get('detail') or '')[:260],
+                    repr(v.get('case', {}).get('history'))[:160]))
         return 0
     if cmd.upper() in PROPS:
         tier = argv[1] if len(argv) > 1 else os.environ.get('VERIF_TIER', 'quick')
